@@ -85,7 +85,7 @@ func (e *ExecutorEngine) TerminateAllSubscriptions(eventHandler EventHandler) er
 		return nil
 	}
 
-	for id := range e.subCancellations.cancellations {
+	for _, id := range e.subCancellations.IDs() {
 		e.subCancellations.Cancel(id)
 	}
 
